@@ -28,4 +28,5 @@ props! {
     "C06" => c06,
     "C07" => c07,
     "C08" => c08,
+    "C09" => c09,
 }
